@@ -2094,8 +2094,10 @@ func (f *File) ReadFrom(r io.Reader) (int64, error) {
 			m, err2 := f.writeChunkAt(ch, b[:n], f.offset)
 			f.offset += int64(m)
 
-			if err == nil {
-				err = err2
+			if err2 != nil {
+				// The write error must not be masked by the io.ErrUnexpectedEOF
+				// that io.ReadFull reports for the final, partial chunk.
+				return read, err2
 			}
 		}
 
